@@ -218,7 +218,10 @@ def _run_symx(h: Harness, tier):
         base = scen
         params = dict(h.params.get(tier, h.params.get("quick", {})))
         scen = lambda S: base(S, **params)  # noqa: E731
-    ex = symx.explore(scen, workers=h.workers, budget_s=h.budget_s)
+    # the quick tier is the check run on every change: a harness that does not drain within five minutes there (normally they take
+    # seconds) ends as inconclusive instead of keeping the check busy for its whole budget
+    budget = min(h.budget_s, 300.0) if tier == "quick" else h.budget_s
+    ex = symx.explore(scen, workers=h.workers, budget_s=budget)
     r = {
         "engine": "symx (replay-forking symbolic execution, z3 %s)" % symx.z3.get_version_string(),
         "paths": ex.paths, "nontrivial": ex.nontrivial, "infeasible": ex.infeasible,
